@@ -195,12 +195,20 @@ def check_concrete(hyps, goal, timeout_ms=10000):
     return None, None
 
 
-def model_to_desc(m, g, cls, bound_n, int_terms):
+def model_to_desc(m, g, cls, bound_n, int_terms, focus=None):
     """concretise a solver model of a (bounded-mode) pre-state into a state description.
     g: the symbolic pre-state HGraph; int_terms: z3 Int terms whose values are interesting instants"""
     def ev(t):
         return m.eval(t, model_completion=True)
     uni = m.get_universe(Node) or []
+    if focus is not None:
+        # keep only the part of the model the clause talks about (the rest is solver filler)
+        keep = []
+        for t in focus:
+            z = ev(t)
+            if not any(z.eq(k) for k in keep):
+                keep.append(z)
+        uni = keep
     ids = {str(z): k + 1 for k, z in enumerate(uni)}
     directed = g.directed
     desc = {'class': cls, 'edge_removal': z3.is_true(ev(g['ER'])), 'nodes': [], 'edges': [], 'events': [],
